@@ -94,7 +94,8 @@ def check(spec, ctx):
     explicit = set()
     for (sec, atoms, version) in model.inter:
         if sec == "exclusions":
-            explicit.add(frozenset(atoms))
+            for other in atoms[1:]:
+                explicit.add(frozenset((atoms[0], other)))
     block_excl = [model.residues[a["res"]]["block"]["nrexcl"] for a in model.atoms]
     used = sorted(set(block_excl))
     mol_excl = written["nrexcl"]
